@@ -32,8 +32,11 @@ CheckCall(e, c) ==
           THEN "row_variables_not_user_domain"
      \* every reported per-realization value is the one returned for the row with that label
      ELSE IF \E i \in 1..Len(e.values) : LET x == e.values[i] IN
-               ~e.failedrow[x.r] /\ ~inactive(x.f, x.r) /\ ~ObsEqInt(x.val, Code(0, x.b, x.r, x.p, x.f))
+               x.f > 0 /\ ~e.failedrow[x.r] /\ ~inactive(x.f, x.r) /\ ~ObsEqInt(x.val, Code(0, x.b, x.r, x.p, x.f))
           THEN "reported_value_not_from_labelled_row"
+     \* evaluation_info (function index 0) is routed by the same labels
+     ELSE IF \E i \in 1..Len(e.values) : LET x == e.values[i] IN x.f = 0 /\ ~ObsEqInt(x.val, Code(0, x.b, x.r, x.p, 0))
+          THEN "evaluation_info_not_from_labelled_row"
      \* inactive only if the weight in force is zero
      ELSE IF \E f \in 1..3 : \E r \in 1..R : inactive(f, r) /\ ~e.weights[f][r].zero THEN "inactive_entry_has_weight"
      \* split gradient: every zero-weight entry is flagged inactive
